@@ -74,6 +74,10 @@ CLAIMED['C16'] = dict(engine='E6', technique='Coq proof about the memoisation st
     text='Partial. Proved: under clear-before-use (what _update_etree does) the shared lru_cache is invisible for any history of phases and earlier documents; _inherit_attrib does not depend on the order of the attribute map (sorted iteration; insertion sort shown order-free). Pinned: the only cache is _inherited_attrib, no module-level state is mutated at run time, the one sequence built from a set is used for membership only. Hash randomisation, process boundaries and the interpreter cannot be modelled: each run converts documents in fresh processes under 5-9 hash seeds and in permuted batches in one process and compares sha256 with the document converted alone.',
     note='Runtime behaviour (hashing, processes) is exercised, not proved.',
     design='§7 C16')
+CLAIMED['C17'] = dict(engine='E5', technique='Coq proof about hand models of the reference-following loops (use-graph check and pass structure of _resolve_use, gradient href recursion, fuelled clip recursion) tied to the code by a differential run; watchdogged adversarial judge (time bound, memory limit, grammar of results, external entity marker) on every run',
+    text='Partial. Proved: the reference-graph check takes at most one round per id, rejects every self reference and accepts only ranked graphs; on a ranked graph the expansion loop has no live reference after |ids|+1 passes; href chains end in a result or an exception for every reference table, cyclic ones in RecursionError. Runtime behaviour (wall-clock, memory, lxml entity handling) is decided by the judge: each adversarial document runs in a subprocess under an alarm and an address-space limit and must return a pico document or raise within 2 s + 3 ms per expanded element. One fix commit (use cycles looped forever).',
+    note='Bounds on the number of passes / recursion steps are proved; the cost of a pass is measured.',
+    design='§7 C17')
 PENDING = {}
 
 def main():
